@@ -7,8 +7,9 @@
    of its element (ElementID), writeJSONResponse sorts by it, so "result i describes element i" holds for parallel bulks
    too (C32_response_attribution_parallel), whatever the completion order. *)
 From Coq Require Import List Bool Arith ZArith String Permutation.
-From LV Require Import Base.Util Ledger.Types Ledger.Core Ledger.Invariants Ledger.Bulk Ledger.BulkProofs.
+From LV Require Import Base.Util Ledger.Types Ledger.Core Ledger.Invariants Ledger.Chart Ledger.SchemaCtrl Ledger.Bulk Ledger.BulkProofs.
 Import ListNotations.
+Open Scope list_scope.
 
 Section C32.
   Context {state elem res O : Type}.
@@ -159,6 +160,61 @@ Proof.
   exact (C32_atomic_all_or_none (core_exec_b f now) bres_ok BCancelled only_sequences tables eq_refl only_sequences_tables cont s es s' rs H).
 Qed.
 Print Assumptions C32_core_atomic_all_or_none.
+
+(* ---------- instantiation with the schema-aware controller step (SchemaCtrl.sstep): the executor of a bulk element when
+   the ledger has schemas -- strict / audit schema lookup for the bulk's schemaVersion, chart default metadata on the
+   accounts the element creates, payload validation.  State = the seven tables + schemas + schema logs + log versions.
+   The generic theorems apply verbatim (they hold for every step function); stated here for this executor. ---------- *)
+Section C32_schema.
+  Variable re_valid : str -> bool.
+  Variable re_match : str -> str -> bool.
+  Variable f : features.
+  Variable m : mode.
+  Variable now : Z.
+  Variable version : str.
+  Notation sexec := (schema_exec_b re_valid re_match f m now version).
+  Notation sbulk := (schema_bulk re_valid re_match f m now version).
+
+  Lemma srollback_stables s0 s1 : stables (srollback s0 s1) = stables s0.
+  Proof. reflexivity. Qed.
+
+  Theorem C32_schema_atomic_all_or_none : forall cont ss es ss' rs,
+    sbulk true cont ss es = (ss', rs) ->
+    (forallb sbres_ok rs = false -> stables ss' = stables ss) /\
+    (forallb sbres_ok rs = true -> ss' = exec_all sexec ss es /\ rs = results_all sexec ss es).
+  Proof.
+    intros cont ss es ss' rs H.
+    exact (C32_atomic_all_or_none sexec sbres_ok SBCancelled srollback stables eq_refl srollback_stables cont ss es ss' rs H).
+  Qed.
+
+  Theorem C32_schema_one_result_per_element : forall atomic cont ss es ss' rs,
+    sbulk atomic cont ss es = (ss', rs) -> List.length rs = List.length es.
+  Proof. exact (C32_one_result_per_element sexec sbres_ok SBCancelled srollback). Qed.
+
+  Theorem C32_schema_sequential_continue : forall ss es,
+    sbulk false true ss es = (exec_all sexec ss es, results_all sexec ss es).
+  Proof. exact (C32_sequential_continue sexec sbres_ok SBCancelled srollback). Qed.
+
+  Theorem C32_schema_sequential_stops_at_first_failure : forall ss es1 e es2,
+    forallb sbres_ok (results_all sexec ss es1) = true ->
+    sbres_ok (snd (sexec (exec_all sexec ss es1) e)) = false ->
+    sbulk false false ss (es1 ++ e :: es2) =
+      (fst (sexec (exec_all sexec ss es1) e),
+       results_all sexec ss es1 ++ snd (sexec (exec_all sexec ss es1) e) :: repeat SBCancelled (List.length es2)).
+  Proof. exact (C32_sequential_stops_at_first_failure sexec sbres_ok SBCancelled srollback). Qed.
+
+  (* each successful element answers what the same request (same input, same idempotency key, same schemaVersion) answers
+     on its own in the state the bulk had reached *)
+  Theorem C32_schema_success_is_standalone : forall atomic cont ss es ss' rs i r,
+    sbulk atomic cont ss es = (ss', rs) -> nth_error rs i = Some r -> sbres_ok r = true ->
+    standalone sexec ss es i = Some r.
+  Proof. exact (C32_success_is_standalone sexec sbres_ok SBCancelled srollback eq_refl). Qed.
+End C32_schema.
+Print Assumptions C32_schema_atomic_all_or_none.
+Print Assumptions C32_schema_one_result_per_element.
+Print Assumptions C32_schema_sequential_continue.
+Print Assumptions C32_schema_sequential_stops_at_first_failure.
+Print Assumptions C32_schema_success_is_standalone.
 
 Local Open Scope string_scope.
 Example C32_example :
